@@ -28,25 +28,25 @@ def blocks(tier):
                        S.ABSENT + S.v2_env_effective()))
         b.append(Block("v2.base_x_env_skeleton", "2", S.v2_base_all(), S.ABSENT, S.v2_env_skeleton()))
         sp = S.v2_spelling_blocks()
-        sp[1].C = sp[1].C[::5]
+        sp[1].C = S.thin(sp[1].C, 5)
         b += sp
         b.append(Block("v3.base_x_temporal", "3.0", S.v3_base_all(),
-                       S.v3_temporal_skeleton(6) + S.v3_temporal_spellings()[::5], twin="3.1"))
+                       S.v3_temporal_skeleton(6) + S.thin(S.v3_temporal_spellings(), 5), twin="3.1"))
         b.append(Block("v3.inherit", "3.0", S.v3_base_all(), S.v3_temporal_skeleton(2)[1:],
                        S.v3_req_all(), twin="3.1"))
         b.append(Block("v3.override", "3.0", S.v3_modified_over_complementary_base(),
-                       S.v3_temporal_skeleton(2), S.v3_req_all()[::3], twin="3.1"))
+                       S.v3_temporal_skeleton(2), S.thin(S.v3_req_all(), 3), twin="3.1"))
         v4 = S.v4_blocks("quick", "short", ("min", "mid"))
-        v4[1].A = v4[1].A[::2]
+        v4[1].A = S.thin(v4[1].A, 2)
         b += v4
     # v4: every optional metric value alone, over a macrovector-covering base set
     base4 = S.v4_blocks("quick", "short", ("min", "min"))[0]
-    body4 = [p for p in spaces.cross(base4.B[::9] if tier != "thorough" else base4.B[::3], base4.C)
+    body4 = [p for p in spaces.cross(S.thin(base4.B, 9) if tier != "thorough" else S.thin(base4.B, 3), base4.C)
              if not any(m in p[1] for m in T.OPTIONAL["4.0"])]   # no clash with the single optional
     b.append(Block("v4.single_optionals", "4.0", base4.A, body4, v4_single_optionals()))
     # v3 environmental spellings with one departure, v2 handled by the spelling blocks
     from .checks import c15
-    b.append(Block("v3.env<=1_departure", "3.0", S.v3_base_all()[::8], S.ABSENT,
+    b.append(Block("v3.env<=1_departure", "3.0", S.thin(S.v3_base_all(), 8), S.ABSENT,
                    c15.v3_env_departures(1), twin="3.1"))
     return b
 
